@@ -238,6 +238,20 @@ def generic_families():
             if order: reg = permute(reg, [0, 1, 2, 4, 3, 5, 6, 8, 7, 9])
             return reg
         return mk
+    def mk_repeated(order):
+        def mk(eng):
+            # Foo<T,U,V>{t:T, x:Vec<one of U,V>} twice under one path, with argument lists that repeat a type on one or both
+            # sides: the id -> parameter-index and name -> parameter-index tables of GenericsList must stay aligned
+            reg = [prim("U8"), prim("U16"), prim("U32"), seq(0), seq(1), seq(2)]
+            names = ("T", "U", "V")
+            for side, argsets in ((0, [(0, 0, 1), (0, 1, 1), (0, 1, 2)]), (1, [(0, 2, 1), (0, 0, 1), (1, 1, 0)])):
+                args = eng.choose([(a, True) for a in argsets]); k = eng.choose([(1, True), (2, True)])
+                reg.append(comp(["m", "Foo"], [fld("t", args[0], "T"), fld("x", 3 + args[k], "Vec<%s>" % names[k])], params=list(zip(names, args))))
+            reg.append(comp(["m", "H"], [fld("a", 6, "Foo"), fld("b", 7, "Foo")]))
+            if order: reg = permute(reg, [0, 1, 2, 3, 4, 5, 7, 6, 8])
+            return reg
+        return mk
+    fams.append(("generic-repeated-arguments-o0", mk_repeated(0))); fams.append(("generic-repeated-arguments-o1", mk_repeated(1)))
     fams.append(("assoc-type-skip-noskip-o0", mk_skip(0))); fams.append(("assoc-type-skip-noskip-o1", mk_skip(1)))
     return fams
 
@@ -304,10 +318,29 @@ def confirm(v, real):
     if real.get("paths"): reg = with_paths(reg, [p.split("::") if p else [] for p in real["paths"].split(",")])
     return bool(faithful_check_concrete(reg, Settings(case["set"]), real, v.get("ids") or list(range(len(reg)))))
 
+def same_id_binding_clash(reg):
+    """two same-path composites with a field (not a bare parameter) of the SAME type id at the same position, where some id
+    inside that type is bound to different parameter positions on the two sides (first matching parameter, as typegen
+    resolves it): `Foo<T,U,V>{x:Vec<V>}` at <u8,u8,u16> next to `Foo<T,U,V>{x:Vec<U>}` at <u16,u16,u8>"""
+    comps = [t for t in reg if t["def"][0] == "composite" and t["path"]]
+    def idx(t, j): return next((k for k, (n, pid) in enumerate(t["params"]) if pid == j), None)
+    for ai, A in enumerate(comps):
+        for B in comps[ai + 1:]:
+            if A["path"] != B["path"] or len(A["def"][1]) != len(B["def"][1]): continue
+            for fa, fb in zip(A["def"][1], B["def"][1]):
+                if fa["ty"] != fb["ty"]: continue
+                if fa["type_name"] in [n for n, _ in A["params"]] or fb["type_name"] in [n for n, _ in B["params"]]: continue
+                inside = set(regdsl.reachable(reg, [fa["ty"]])) | {fa["ty"]}
+                if any(idx(A, j) != idx(B, j) for j in inside): return True
+    return False
 def classify(v):
     w = v["what"]; fam = v.get("family", "")
     if "panic" in w[:20]: return "panic"
     if v.get("kind") == "other-error": return "other-error"
+    if fam.startswith("generic-repeated-arguments") and v.get("kind") in ("conflation", "dedup-leaves-shapes") and not v.get("digit_collision"):
+        try:
+            if same_id_binding_clash(regdsl.decode(bytes.fromhex(v["case"]["reg"]))): return "same-id-under-different-parameter-binding"
+        except Exception: pass
     if v.get("kind") == "dedup-leaves-shapes": return "digit-suffix-collision" if v.get("digit_collision") else "dedup-leaves-shapes:" + fam.rsplit("-o", 1)[0]
     if "index" in w and ("variant" in fam or "versions" in fam or "index" in fam): return "variant-index-not-compared"
     return "conflation:" + fam.rsplit("-o", 1)[0]
